@@ -378,6 +378,7 @@ pub fn run(tier: Tier) -> i32 {
         }
     };
 
+    let n_after_failure = AtomicU64::new(0);
     cases.par_chunks(256).for_each(|chunk| {
         // every chunk is evaluated on a thread that has just evaluated - and failed on - a program
         // whose constants carry the names of the prologue with other values: the value of an
@@ -401,6 +402,12 @@ pub fn run(tier: Tier) -> i32 {
                 Val::Value(v) => {
                     n_value.fetch_add(1, Ordering::Relaxed);
                     distinct_values.lock().unwrap().insert(*v);
+                    // an expression over constants that are themselves defined by expressions: also
+                    // as the very first evaluation after one that failed over the same names
+                    if ["k_sum", "k_chain", "dbl", "fn_mix", "K_SUM", "K_Chain", "k_neg", "K_Neg"].iter().any(|n| text.contains(n)) && n_after_failure.fetch_add(1, Ordering::Relaxed) < 20_000 {
+                        let _ = crate::sut::build_str(".equ k_five = 2 + 2\n.equ k_sum = k_five * 9\n.equ K_Neg = 1 - 8\n.equ dbl0 = 3 + 0\n.equ dbl1 = dbl0 + dbl0\n.equ dbl2 = dbl1 + dbl1\n.equ dbl3 = dbl2 + dbl2\n.equ fn_mix = 77 + 0\n.equ k_chain = (k_sum + K_Neg + dbl3 + fn_mix) / (k_five - 4)\n.dq k_chain\n");
+                        check_single(c, &text, &expected);
+                    }
                     packed.push((i, BCase { text: format!(".dq {}", text), expect: le8(*v) }));
                 }
                 Val::MustFail => {
@@ -455,6 +462,7 @@ pub fn run(tier: Tier) -> i32 {
     rep.assume("page/log2 are not in the statement and are not checked; '--x' and a space after a unary operator are not generated");
     let coverage = cov(json!({
         "evaluations": evals.load(Ordering::Relaxed),
+        "symbol_expressions_as_first_evaluation_after_a_failed_one": n_after_failure.load(Ordering::Relaxed).min(20_000),
         "distinct_nontrivial": dt,
         "rule": "all trees with <=2 binary operators (18x18 ordered pairs, both groupings) over leaves {0,1,2,3,7} rendered with minimal parentheses, one unary operator on any node (quick: reduced leaf cube), unary x unary, every operator on a 25x25 boundary grid up to i64 min/max, every function, 33 literal values x 7 radix spellings, .equ symbols (defined before and after use, either case) and labels; thorough adds all 3-operator trees over {1,2,7}. distinct_nontrivial = distinct rendered expression texts (each contains at least one literal or symbol and is evaluated)",
         "exhaustive": true,
